@@ -227,6 +227,16 @@ def gen_scenario(seed, tier="quick"):
         # the same import written twice (e.g. after concatenating source files) is harmless
         modules[m]["repeat_import"] = (prng.randrange(len(imps)) if imps and not sw["restricted"] and prng.random() < 0.12
                                        else None)
+    if swr.random() < 0.1 and not sw["restricted"]:
+        # an umbrella module without functions: nothing but imports of the former roots
+        # (it is a node of the import DAG like any other, and the only one the host adds)
+        imported = {x for mm in modules for x in mm["imports"]}
+        former_roots = [m for m in range(nm) if m not in imported]
+        uname = prng.choice([n for n in NAME_POOL if n not in names])
+        names.append(uname)
+        modules.append({"name": uname, "imports": former_roots, "place": ["first"] * len(former_roots), "struct": None,
+                        "helpers": [], "layout": "std", "suffix": False, "repeat_import": None, "umbrella": True})
+        nm += 1
     # generations: per generation a constant offset per function
     gens = []
     for gno in range(sw["generations"]):
@@ -565,7 +575,7 @@ def well_formed(sc):
         if f.get("tmpl") == "struct" and not mods[f["mod"]].get("struct"):
             return False
     for m in range(nm):
-        if not any(f["mod"] == m for f in funcs):
+        if not any(f["mod"] == m for f in funcs) and not mods[m].get("umbrella"):
             return False
     sigs = [(f["name"], tuple(t for _n, t in f["params"])) for f in funcs]
     if len(set(sigs)) != len(sigs):
